@@ -132,6 +132,59 @@ func runC11(c *ev.Ctx) {
 	// ---- (b)+(c) random multi-validator sets
 	nsets := c.Pick(20000, 1000000)
 	c.Parallel(nsets, 0, func(i int) { c11RandomSet(c, c.Rand("set", i), i) })
+	nlarge := c.Pick(3000, 100000)
+	c.Parallel(nlarge, 0, func(i int) { c11LargeSet(c, c.Rand("large", i), i) })
+}
+
+// c11LargeSet: sets of 13..300 validators (index ranges beyond one machine word), counting sequences
+// with many repeats in random order against a set model.
+func c11LargeSet(c *ev.Ctx, r *rand.Rand, caseN int) {
+	n := []int{13, 31, 32, 33, 63, 64, 65, 66, 100, 127, 128, 129, 200, 300}[r.Intn(14)]
+	b := pos.NewBuilder()
+	wOf := map[idx.ValidatorID]uint64{}
+	var T uint64
+	for i := 0; i < n; i++ {
+		w := uint64(1 + r.Intn(5))
+		if r.Intn(10) == 0 {
+			w = uint64(1 + r.Intn(1000))
+		}
+		id := idx.ValidatorID(1 + i)
+		b.Set(id, pos.Weight(w))
+		wOf[id] = w
+		T += w
+	}
+	v := b.Build()
+	q := T*2/3 + 1
+	wc := v.NewCounter()
+	model := map[idx.ValidatorID]bool{}
+	var sum uint64
+	steps := n + r.Intn(2*n)
+	hot := idx.ValidatorID(1 + r.Intn(n)) // one validator counted over and over
+	for s := 0; s < steps; s++ {
+		id := idx.ValidatorID(1 + r.Intn(n))
+		if r.Intn(3) == 0 {
+			id = hot
+		}
+		var got bool
+		if r.Intn(2) == 0 {
+			got = wc.Count(id)
+		} else {
+			got = wc.CountByIdx(v.GetIdx(id))
+		}
+		want := !model[id]
+		if want {
+			model[id] = true
+			sum += wOf[id]
+		}
+		c.Count("count_calls", 1)
+		if got != want || uint64(wc.Sum()) != sum || wc.HasQuorum() != (sum >= q) {
+			c.Violation("weight-counter-vs-set-model", map[string]interface{}{"case": caseN, "validators": n, "total": T, "step": s, "counted_id": id, "index": v.GetIdx(id),
+				"returned": got, "want": want, "sum_got": wc.Sum(), "sum_want": sum, "has_quorum": wc.HasQuorum(), "quorum": q})
+			return
+		}
+	}
+	c.Eval(1)
+	c.Nontrivial(ev.Hash("large", caseN, n, T))
 }
 
 func c11RandomSet(c *ev.Ctx, r *rand.Rand, caseN int) {
